@@ -22,6 +22,12 @@ HINTS = {
           "object identity / address reuse, the monotonic clock standing still or jumping, an interface or path name of unusual length; "
           "(c) SWALLOWED ERRORS: an error is caught (a broad except, a default value, a retry that gives up) and replaced by something that looks like "
           "success, so the operation silently does less than it claims."),
+    "I": ("This time prefer one of: (a) A LESS-USED ENTRY POINT: an optional or keyword argument, a default that is rarely overridden, an alternative "
+          "constructor, a subclass hook, a public helper or property that reaches the mechanism by another route than the usual one - the usual route stays "
+          "right; (b) SIZE AND ALIGNMENT ARITHMETIC: wrong only for particular sizes or offsets - odd sizes, sizes that are not a multiple of 4 or 8, a field "
+          "that straddles a 256 / 65536 / word boundary, the last element of a sequence, an empty sequence, a length that equals a limit minus the header; "
+          "(c) ORDER: the result depends on the order in which variables, members, terminals, devices, datagrams or processes are declared, sorted or "
+          "iterated - ties in a sort key, reverse or interleaved order, two items at the same position, something declared after first use."),
 }
 pid, rnd = sys.argv[1], sys.argv[2]
 base = subprocess.run([sys.executable, "/verif/harness/agent_prompt.py", pid], capture_output=True, text=True, check=True).stdout
